@@ -161,7 +161,8 @@ def dispatch_cascade(ctx):
                         reacted.add(DECODERS[d])
                     if bad:
                         ctx.ob(P, 'RF2-cascade', 'CONodeProcess', site, None)
-                        ctx.find(P, 'RF2-cascade', 'CONodeProcess', 'cascade:%s' % bad, m.loc('CONodeProcess', m.funcs['CONodeProcess'].line),
+                        # an LSS frame (request or answer) that leaks past the LSS stage: also the LSS property
+                        ctx.find(P + (['C18'] if 'LSS' in bad else []), 'RF2-cascade', 'CONodeProcess', 'cascade:%s' % bad, m.loc('CONodeProcess', m.funcs['CONodeProcess'].line),
                                  '%s (path: %s)' % (bad, site))
                     else:
                         ctx.ob(P, 'RF2-cascade', 'CONodeProcess', site, 'one claim at most, leftover once')
@@ -388,7 +389,7 @@ def mode_writer(ctx):
                 want_inits = 2 if (new == 'CO_OPERATIONAL' and old != new) else 0
                 if ok and pdo_inits != want_inits:
                     ctx.ob(P + ['C12', 'C13'], 'RF1-setmode', 'CONmtSetMode', site + ' (PDO initialisation)', None)
-                    ctx.find(P + ['C12', 'C13'], 'RF1-setmode', 'CONmtSetMode', 'setmode-pdo-init:%s:%s' % (old, new),
+                    ctx.find(P + ['C12', 'C13', 'C14', 'C16'], 'RF1-setmode', 'CONmtSetMode', 'setmode-pdo-init:%s:%s' % (old, new),
                              m.loc('CONmtSetMode', m.funcs['CONmtSetMode'].line),
                              'transition %s -> %s initialises the PDOs %d times, required %d (exactly on a real transition into '
                              'OPERATIONAL: TPDO and RPDO once each)' % (old, new, pdo_inits, want_inits))
